@@ -10,7 +10,7 @@ decodes; `to_model(desc)` is the declared model in the form c10_gen.canon unders
 oracle: what the parser must return, computed without any Coq definition).
 
 Declaration kinds inside the fragment: typedef of a base type, enum, struct, exception, union, const
-(integer or plain double-quoted string value).  See the comment above the theorem in Props/C10.v.
+(integer or plain double-quoted string value), service.  See the comment above the theorem in Props/C10.v.
 """
 
 BASE = [b"bool", b"byte", b"i16", b"i32", b"i64", b"double", b"string", b"binary"]
@@ -21,7 +21,8 @@ KEYWORDS = [b"include", b"namespace", b"const", b"enum", b"typedef", b"struct", 
             b"cpp_type", b"prefix", b"true", b"false"] + BASE
 
 KINDS_INSIDE = ["typedef of a base type", "enum", "struct", "exception", "union",
-                "const with an integer value", "const with a plain double-quoted string value"]
+                "const with an integer value", "const with a plain double-quoted string value",
+                "service (no extends) with methods: oneway or not, void or base/container return type, arguments, throws"]
 STYLES_INSIDE = [
     "blanks (space, tab, CR) at every '_' position, blanks and line breaks at every '__' position, any length incl. none",
     "field ids: any 64-bit integer, negative included", "field modifiers: required / optional / none (default)",
@@ -30,10 +31,12 @@ STYLES_INSIDE = [
     "enum values: implicit / explicit (negative included), separators ',' / ';' / none",
     "names: any identifier-shaped byte string (keyword-prefixed, underscores, dots)",
     "const values: decimal 64-bit integers; double-quoted ASCII strings without quote, backslash, line break",
+    "methods: 'oneway' or not; 'void' or a base/container return type; argument and throws lists are field lists in "
+    "every field style; separators ',' / ';' / none after a method; blanks and line breaks at every '__' position",
     "statement terminator: line break",
 ]
 OUTSIDE = ["named (identifier) types", "field default values", "const values of kind double / bool / list / map / "
-           "identifier, strings with escapes or single quotes", "services", "scopes", "includes", "namespaces",
+           "identifier, strings with escapes or single quotes", "service 'extends'", "scopes", "includes", "namespaces",
            "comments and doc comments", "annotations", "cpp_type", "';' and end-of-file statement terminators"]
 
 
@@ -185,20 +188,76 @@ class FragGen:
                     self.wsnl(0.3))
         return {"name": self.ident(), "tail": tail}
 
+    def nl_led(self, p_empty=0.3):
+        """a run of blanks and line breaks that is empty or begins with a line break"""
+        if self.rng.random() < p_empty:
+            return b""
+        self.features.add("gap_with_line_break")
+        return b"\n" + self.wsnl(0.5)
+
+    def fields(self, n):
+        return [self.field(i == n - 1) for i in range(n)]
+
+    def function(self):
+        rng = self.rng
+        if rng.random() < 0.3:
+            w = self.wsnl(0.0) if rng.random() < 0.93 else b""
+            ow = ("oneway", w)
+            self.features.add("method_oneway" if w else "method_oneway_glued")
+        else:
+            ow = ("none",)
+        if rng.random() < 0.45:
+            w = self.wsnl(0.0) if rng.random() < 0.93 else b""
+            ret = ("void", w)
+            self.features.add("method_void" if w else "method_void_glued_to_name")
+        else:
+            ty = self.ty()
+            w = self.nl_led(0.6)
+            if ty[0] == "base" and ty[-1] == b"" and w == b"" and rng.random() < 0.9:
+                ty = ty[:-1] + (self.blanks1(),)
+            ret = ("type", ty, w)
+            self.features.add("method_returns_" + ("base" if ty[0] == "base" else "container"))
+        nargs = rng.choice([0, 0, 1, 2, 3])
+        self.features.add("method_args_%s" % ("none" if nargs == 0 else "some"))
+        r = rng.random()
+        if r < 0.3:
+            tail = ("plain", self.wsnl(0.2))
+            self.features.add("method_sep_none")
+        elif r < 0.6:
+            sep = rng.choice(b",;")
+            tail = ("sep", self.wsnl(0.7), sep, self.wsnl(0.2))
+            self.features.add("method_sep_comma" if sep == 44 else "method_sep_semicolon")
+        else:
+            nth = rng.choice([0, 1, 1, 2])
+            sep = rng.choice([None, None, 44, 59])
+            w3 = self.wsnl(0.2) if sep is not None else self.nl_led(0.2)
+            tail = ("throws", self.wsnl(0.3), self.wsnl(0.5), self.wsnl(0.6), self.fields(nth), self.blanks(0.7), sep, w3)
+            self.features.add("method_throws" if nth else "method_throws_empty")
+            self.features.add("method_throws_then_" + ("none" if sep is None else "sep"))
+        return {"ow": ow, "ret": ret, "name": self.ident(), "g": self.blanks(0.7), "w": self.wsnl(0.6),
+                "args": self.fields(nargs), "tail": tail}
+
     def decl(self):
         rng = self.rng
-        k = rng.choice(["typedef", "enum", "struct", "struct", "exception", "union", "const", "const"])
+        k = rng.choice(["typedef", "enum", "struct", "struct", "exception", "union", "const", "const", "service", "service"])
         self.features.add("kind_" + k)
         if k == "typedef":
             return ("typedef", {"g1": self.kw_gap(), "base": rng.choice(BASE), "g2": self.blanks1(), "name": self.ident(),
                                 "g3": self.blanks(0.7), "w": self.wsnl(0.5)})
         if k == "enum":
             n = rng.choice([0, 1, 2, 3, 5])
+            vals = [self.enum_value(i == n - 1) for i in range(n)]
+            keep_in_range(vals, rng)
             return ("enum", {"g1": self.kw_gap(), "name": self.ident(), "w1": self.wsnl(0.3), "w2": self.wsnl(0.3),
-                             "values": [self.enum_value(i == n - 1) for i in range(n)], "g3": self.blanks(0.7),
-                             "w": self.wsnl(0.5)})
+                             "values": vals, "g3": self.blanks(0.7), "w": self.wsnl(0.5)})
         if k in ("struct", "exception", "union"):
             return (k, {"g1": self.kw_gap(), "sl": self.struct_like()})
+        if k == "service":
+            n = rng.choice([0, 1, 2, 3, int(4 * self.size)])
+            if n == 0:
+                self.features.add("empty_service")
+            return ("service", {"g1": self.kw_gap(), "name": self.ident(), "w1": self.wsnl(0.3), "w2": self.wsnl(0.3),
+                                "fns": [self.function() for _ in range(n)], "g3": self.blanks(0.7), "w": self.wsnl(0.5)})
         ty = self.before_name(self.ty())
         if rng.random() < 0.5:
             z = self.int64()
@@ -216,10 +275,40 @@ class FragGen:
         return ("const", {"g1": self.kw_gap(), "ty": ty, "name": self.ident(), "g2": self.blanks(0.3),
                           "g3": self.blanks(0.3), "v": v, "g4": self.blanks(0.7), "w": self.wsnl(0.5)})
 
+    def hazard_enum_overflow(self):
+        """known finding C10-F22: the implicit value after the largest 64-bit integer (Go int wrap-around)"""
+        vals = [self.enum_value(False) for _ in range(self.rng.randrange(0, 3))]
+        keep_in_range(vals, self.rng)
+        top = {"name": self.ident(), "tail": ("valsep", self.blanks(0.5), self.blanks(0.5), 2 ** 63 - 1, self.blanks(0.7),
+                                             self.rng.choice(b",;"), self.wsnl(0.3))}
+        nxt = {"name": self.ident(), "tail": ("plain", self.wsnl(0.3))}
+        return {"w0": self.wsnl(0.5),
+                "decls": [("enum", {"g1": self.blanks1(), "name": self.ident(), "w1": self.wsnl(0.3), "w2": self.wsnl(0.3),
+                                    "values": vals + [top, nxt], "g3": self.blanks(0.7), "w": self.wsnl(0.5)})]}
+
     def file(self):
         rng = self.rng
         n = rng.choice([1, 1, 2, 3, 4, int(7 * self.size)])
         return {"w0": self.wsnl(0.5), "decls": [self.decl() for _ in range(n)]}
+
+
+def keep_in_range(values, rng):
+    """no implicit enum value may follow 2^63 - 1 (that corner is the hazard case, known finding C10-F22)"""
+    while True:
+        prev, last_explicit, bad = -1, None, None
+        for i, v in enumerate(values):
+            tl = v["tail"]
+            if tl[0] in ("val", "valsep"):
+                prev, last_explicit = tl[3], i
+            else:
+                prev += 1
+            if prev > 2 ** 63 - 1:
+                bad = last_explicit
+                break
+        if bad is None:
+            return
+        tl = values[bad]["tail"]
+        values[bad]["tail"] = tl[:3] + (rng.randrange(-1000, 1000),) + tl[4:]
 
 
 # ---- the mirror of render_file -----------------------------------------------------------------------
@@ -266,6 +355,27 @@ def render_ev(v, more):
     return v["name"] + t + more
 
 
+def render_fields(fs, tail):
+    for f in reversed(fs):
+        tail = render_field(f, tail)
+    return tail
+
+
+def render_fn(f, more):
+    tl = f["tail"]
+    if tl[0] == "plain":
+        t = tl[1] + more
+    elif tl[0] == "sep":
+        t = tl[1] + bytes([tl[2]]) + tl[3] + more
+    else:
+        after = (bytes([tl[6]]) if tl[6] is not None else b"") + tl[7] + more
+        t = tl[1] + b"throws" + tl[2] + b"(" + tl[3] + render_fields(tl[4], b")" + tl[5] + after)
+    rest = f["name"] + f["g"] + b"(" + f["w"] + render_fields(f["args"], b")" + t)
+    r = f["ret"]
+    rest = b"void" + r[1] + rest if r[0] == "void" else render_ty(r[1], r[2] + rest)
+    return (b"oneway" + f["ow"][1] if f["ow"][0] == "oneway" else b"") + rest
+
+
 def render_decl(kd, more):
     k, d = kd
     if k == "typedef":
@@ -277,6 +387,11 @@ def render_decl(kd, more):
         return b"enum" + d["g1"] + d["name"] + d["w1"] + b"{" + d["w2"] + body
     if k in ("struct", "exception", "union"):
         return k.encode() + d["g1"] + render_sl(d["sl"], more)
+    if k == "service":
+        body = b"}" + d["g3"] + b"\n" + d["w"] + more
+        for f in reversed(d["fns"]):
+            body = render_fn(f, body)
+        return b"service" + d["g1"] + d["name"] + d["w1"] + b"{" + d["w2"] + body
     v = d["v"]
     val = render_int(v[1]) if v[0] == "int" else b'"' + v[1] + b'"'
     return b"const" + d["g1"] + render_ty(d["ty"], d["name"] + d["g2"] + b"=" + d["g3"] + val + d["g4"] + b"\n"
@@ -332,6 +447,20 @@ def t_ev(v):
     return [v["name"][0], v["name"][1:], t]
 
 
+def t_fn(f):
+    ow = [0] if f["ow"][0] == "none" else [1, f["ow"][1]]
+    r = f["ret"]
+    ret = [0, r[1]] if r[0] == "void" else [1, t_ty(r[1]), r[2]]
+    tl = f["tail"]
+    if tl[0] == "plain":
+        tail = [0, tl[1]]
+    elif tl[0] == "sep":
+        tail = [1, tl[1], tl[2], tl[3]]
+    else:
+        tail = [2, tl[1], tl[2], tl[3], [t_field(x) for x in tl[4]], tl[5], [] if tl[6] is None else [tl[6]], tl[7]]
+    return [ow, ret, f["name"][0], f["name"][1:], f["g"], f["w"], [t_field(x) for x in f["args"]], tail]
+
+
 def t_decl(kd):
     k, d = kd
     if k == "typedef":
@@ -340,6 +469,8 @@ def t_decl(kd):
         return [1, d["g1"], d["name"][0], d["name"][1:], d["w1"], d["w2"], [t_ev(v) for v in d["values"]], d["g3"], d["w"]]
     if k in ("struct", "exception", "union"):
         return [2, {"struct": 0, "exception": 1, "union": 2}[k], d["g1"], t_sl(d["sl"])]
+    if k == "service":
+        return [4, d["g1"], d["name"][0], d["name"][1:], d["w1"], d["w2"], [t_fn(f) for f in d["fns"]], d["g3"], d["w"]]
     v = d["v"]
     cv = [0, t_z(v[1])] if v[0] == "int" else [1, v[1]]
     return [3, d["g1"], t_ty(d["ty"]), d["name"][0], d["name"][1:], d["g2"], d["g3"], cv, d["g4"], d["w"]]
@@ -362,6 +493,11 @@ def m_ty(t):
 MODS = {"required": 0, "optional": 1, "default": 2}
 
 
+def m_fields(fs):
+    return [{"doc": None, "id": f["id"], "name": f["name"], "mod": MODS[f["mod"][0]], "type": m_ty(f["ty"]),
+             "default": None, "anns": []} for f in fs]
+
+
 def to_model(desc):
     decls = []
     for k, d in desc["decls"]:
@@ -380,6 +516,13 @@ def to_model(desc):
             fs = [{"doc": None, "id": f["id"], "name": f["name"], "mod": MODS[f["mod"][0]], "type": m_ty(f["ty"]),
                    "default": None, "anns": []} for f in s["fields"]]
             decls.append((k, {"doc": None, "name": s["name"], "fields": fs, "anns": []}))
+        elif k == "service":
+            ms = []
+            for f in d["fns"]:
+                ms.append({"doc": None, "name": f["name"], "oneway": f["ow"][0] == "oneway",
+                           "ret": m_ty(f["ret"][1]) if f["ret"][0] == "type" else None, "args": m_fields(f["args"]),
+                           "throws": m_fields(f["tail"][4]) if f["tail"][0] == "throws" else None, "anns": []})
+            decls.append(("service", {"doc": None, "name": d["name"], "extends": None, "methods": ms, "anns": []}))
         else:
             decls.append(("const", {"doc": None, "name": d["name"], "type": m_ty(d["ty"]), "value": d["v"], "anns": []}))
     return {"decls": decls}
